@@ -23,7 +23,7 @@ class Prop(BaseProp):
             "t_end, be strictly increasing (discrete: non-decreasing interior, two edge entries), have consistent array "
             "lengths and finite values; scalars and matrices must be finite. distinct = (entry form, interleaving word, "
             "keyword regime)")
-    budget = {"quick": 900, "thorough": 20000}
+    budget = {"quick": 900, "thorough": 100000}
     must_see = ["src_W3", "src_W3x3", "empty_train", "one_spike_train_on_t_start", "one_spike_train_on_t_end", "identical_trains",
                 "all_empty", "interval_given", "mrts_auto", "RI_true", "max_tau_positive", "N>=3"] + \
                ["ep:" + e[0] for e in common.ENTRY_POINTS] + ["ep:filter_by_spike_sync"]
